@@ -276,6 +276,10 @@ def process_fn(src, unit, key, spec, s, hp, ob, cb, add_edit, canary, disabled_r
         bs += '\n' + spec['body_start'] + '\n'
     add_edit(ob + 1, ob + 1, bs, prio=2)
 
+    # ghost text before the closing brace (unit functions only: the body must not end in a tail expression value)
+    if spec.get('body_end'):
+        add_edit(cb, cb, '\n' + spec['body_end'] + '\n', prio=-2)
+
     # loops
     loops = spec.get('loops', {})
     if loops:
